@@ -392,15 +392,26 @@ Section Ops.
     end.
   Definition op_pull := op_pull_gen get_existing (fun n => n).
 
-  (** server.Serve before it listens: fixBlobs (nothing to rename in this model: no blob file name contains ':'),
-      Manifests(false) fails -> no pruning, else PruneLayers (files whose name is not a digest are removed, then
-      the blobs no manifest uses — compared as "sha256:<file hex>") and PruneDirectory *)
-  Definition op_startup (s : store) : run * result :=
-    let r0 := init s in
-    if has_unreadable s then (r0, ROk)
+  (** fixBlobs (server/fixblobs.go): every file of the blobs directory whose name starts with "sha256:" is renamed to
+      "sha256-..." (over an existing file of that name, if any) *)
+  Definition fix_step (r : run) (d : dfile) : run :=
+    match d with
+    | DColon h c => emit r (EFixBlob h c)
+    | DColonPartial h => emit r (EFixPartial h)
+    | _ => r
+    end.
+  Definition fix_blobs (r : run) : run := fold_left fix_step (debris (rs r)) r.
+
+  (** the rest of server.Serve before it listens: Manifests(false) fails -> no pruning, else PruneLayers (files whose
+      name is not a digest are removed, then the blobs no manifest uses — compared as "sha256:<file hex>") and
+      PruneDirectory *)
+  Definition startup_rest (r : run) : run :=
+    if has_unreadable (rs r) then r
     else
-      let r1 := fold_left (fun r d => emit r (ERmDebris d)) (debris s) r0 in
-      (delete_unused r1 (map (fun p => MkDigest true (fst p)) (blobs s)), ROk).
+      let r1 := fold_left (fun r d => emit r (ERmDebris d)) (debris (rs r)) r in
+      delete_unused r1 (map (fun p => MkDigest true (fst p)) (blobs (rs r))).
+
+  Definition op_startup (s : store) : run * result := (startup_rest (fix_blobs (init s)), ROk).
 
   Definition op_run (s : store) (o : op) : run * result :=
     match o with
